@@ -254,6 +254,13 @@ func (c01) Generate(r *sim.Rand, tier string) *sim.Scenario {
 		g.o.MaxElems, g.o.MaxDim = 144, 6
 		maxOps, maxDepth = 50, 60
 	}
+	// size swarm: now and then long dimensions / many concat operands / rank 5
+	switch r.Intn(8) {
+	case 0:
+		g.o.MaxDim, g.o.MaxElems = 19, 160
+	case 1:
+		g.o.MaxRank = 5
+	}
 	pReuse := []float64{0.3, 0.6, 0.9}[r.Intn(3)]
 	sc.Cfg["clients"] = float64(nclients)
 	sc.Cfg["mode"] = float64(mode)
@@ -271,7 +278,7 @@ func (c01) Generate(r *sim.Rand, tier string) *sim.Scenario {
 	for i := 0; i < nshared; i++ {
 		shp := sshape
 		if !structured {
-			shp = randShape(r, g.o.MaxRank, g.o.MaxDim, g.o.MaxElems)
+			shp = randShape(r, minInt(g.o.MaxRank, 4), g.o.MaxDim, g.o.MaxElems)
 		}
 		st := leafStep(r, g.ids, sharedClient, shp, r.Bool(g.o.PTracked), false)
 		res := g.pool.Apply(st)
@@ -634,6 +641,159 @@ func (p *c01prog) buildX(only map[int]bool, track bool, perturb func(id int, fla
 	return run
 }
 
+
+// contractionFloors: a backward rule may contract (MatMul, Dot, the averaging
+// of a broadcast gradient): its output can be a rounding residue of terms of
+// magnitude |consumer gradient| * |operand values|. That magnitude, per
+// consumer, is the floor of the comparison scale for the operand; a
+// consumer's own floor (its gradient may itself be a residue) is passed on,
+// so the steps are walked backwards (consumers come after their operands).
+func contractionFloors(steps []sim.Step, pool *sim.Pool, have map[int]bool, abs map[int][]float64) map[int]float64 {
+	vmax := func(id int) float64 {
+		t, ok := pool.T[id]
+		if !ok {
+			return 0
+		}
+		m := 0.0
+		for _, v := range sim.Values(t) {
+			if a := math.Abs(v); a > m {
+				m = a
+			}
+		}
+		return m
+	}
+	floor := map[int]float64{}
+	for si := len(steps) - 1; si >= 0; si-- {
+		st := steps[si]
+		if !have[st.Out] || len(st.In) == 0 {
+			continue
+		}
+		sm := floor[st.Out]
+		for _, a := range abs[st.Out] {
+			if a > sm && !math.IsInf(a, 0) {
+				sm = a
+			}
+		}
+		v := 1.0
+		for _, o := range st.In {
+			if m := vmax(o); m > v {
+				v = m
+			}
+		}
+		if m := vmax(st.Out); m > v {
+			v = m
+		}
+		if st.Op == "div" {
+			v *= 100
+		}
+		for _, o := range st.In {
+			if f := sm * v; f > floor[o] {
+				floor[o] = f
+			}
+		}
+	}
+	return floor
+}
+
+// coneSplitTwin: the partial unfolding that scales to any depth. Every use of
+// node n as an operand gets its own recomputation of everything n depends on
+// (its cone), so nothing is accumulated on n by the library; the harness adds
+// up the gradients of the copies. Returns sum / abs-sum per node id.
+func (p *c01prog) coneSplitTwin(c int, n int) (sum, abs map[int][]float64, have map[int]bool, pool *sim.Pool, fail string) {
+	cone, _ := p.upstream(n)
+	var steps []sim.Step
+	for _, st := range p.sc.Steps {
+		if st.C == c || st.C == sharedClient {
+			steps = append(steps, st)
+		}
+	}
+	copies := map[int][]tensor.Tensor{}
+	buildCone := func() (map[int]tensor.Tensor, bool) {
+		m := map[int]tensor.Tensor{}
+		for _, st := range steps {
+			if !cone[st.Out] {
+				continue
+			}
+			in := make([]tensor.Tensor, len(st.In))
+			for i, id := range st.In {
+				in[i] = m[id]
+			}
+			res := sim.ApplyOn(st, in)
+			if res.Err != nil || res.T == nil {
+				fail = fmt.Sprintf("cone-split twin: step %s failed: %v", st.String(), res.Err)
+				return nil, false
+			}
+			m[st.Out] = res.T
+			copies[st.Out] = append(copies[st.Out], res.T)
+		}
+		return m, true
+	}
+	base, ok := buildCone()
+	if !ok {
+		return
+	}
+	pool = sim.NewPool()
+	for id, t := range base {
+		pool.T[id] = t
+	}
+	for _, st := range steps {
+		if cone[st.Out] {
+			continue
+		}
+		in := make([]tensor.Tensor, len(st.In))
+		for i, id := range st.In {
+			if id == n {
+				cp, ok := buildCone()
+				if !ok {
+					return
+				}
+				in[i] = cp[n]
+			} else {
+				in[i] = pool.T[id]
+			}
+		}
+		res := sim.ApplyOn(st, in)
+		if res.Err != nil || res.T == nil {
+			fail = fmt.Sprintf("cone-split twin: step %s failed: %v", st.String(), res.Err)
+			return
+		}
+		pool.T[st.Out] = res.T
+		copies[st.Out] = append(copies[st.Out], res.T)
+	}
+	if err := tensor.BackPropagate(pool.T[p.roots[c]]); err != nil {
+		fail = fmt.Sprintf("cone-split twin: BackPropagate returned error: %v", err)
+		return
+	}
+	sum, abs, have = map[int][]float64{}, map[int][]float64{}, map[int]bool{}
+	ids := make([]int, 0, len(copies))
+	for id := range copies {
+		ids = append(ids, id)
+	}
+	sort.Ints(ids)
+	for _, id := range ids {
+		for _, cp := range copies[id] {
+			g := cp.Gradient()
+			if g == nil {
+				continue
+			}
+			vals := sim.Values(g)
+			if !have[id] {
+				have[id] = true
+				sum[id] = make([]float64, len(vals))
+				abs[id] = make([]float64, len(vals))
+			}
+			if len(vals) != len(sum[id]) {
+				continue
+			}
+			for i, v := range vals {
+				sum[id][i] += v
+				abs[id][i] += math.Abs(v)
+			}
+		}
+	}
+	return
+}
+
 type cmpStats struct{ checked, nonzero int }
 
 // compareGrad checks got against the sum of parts (with absolute sum as scale).
@@ -905,52 +1065,7 @@ func (prop c01) Execute(sc *sim.Scenario) *sim.Outcome {
 		out.Probes["unfolded-programs"]++
 	}
 	if unfoldedAll {
-		// A backward rule may contract (MatMul, Dot, the averaging of a
-		// broadcast gradient): its output can be a rounding residue of terms of
-		// magnitude |consumer gradient| * |operand values|. That magnitude, per
-		// consumer, is the floor of the comparison scale for the operand.
-		vmax := func(id int) float64 {
-			m := 0.0
-			for _, v := range sim.Values(main.pool.T[id]) {
-				if a := math.Abs(v); a > m {
-					m = a
-				}
-			}
-			return m
-		}
-		floor := map[int]float64{}
-		// consumers come after their operands in step order: walk backwards so
-		// that a consumer's own floor (its gradient may itself be a residue) is
-		// final before it is passed on to its operands
-		for si := len(sc.Steps) - 1; si >= 0; si-- {
-			st := sc.Steps[si]
-			if !have[st.Out] || len(st.In) == 0 {
-				continue
-			}
-			sm := floor[st.Out]
-			for _, a := range abs[st.Out] {
-				if a > sm && !math.IsInf(a, 0) {
-					sm = a
-				}
-			}
-			v := 1.0
-			for _, o := range st.In {
-				if m := vmax(o); m > v {
-					v = m
-				}
-			}
-			if m := vmax(st.Out); m > v {
-				v = m
-			}
-			if st.Op == "div" {
-				v *= 100
-			}
-			for _, o := range st.In {
-				if f := sm * v; f > floor[o] {
-					floor[o] = f
-				}
-			}
-		}
+		floor := contractionFloors(sc.Steps, main.pool, have, abs)
 		for _, id := range p.order {
 			g := gotGrad[id]
 			if g == nil {
@@ -967,6 +1082,64 @@ func (prop c01) Execute(sc *sim.Scenario) *sim.Outcome {
 			if ok, why := compareGradFloor(g, sum[id], abs[id], floor[id]); !ok {
 				out.Fail("unfold-mismatch", "node %d (%s, shape %v): gradient differs from the sum over its %s: %s", id, p.byID[id].Op, g.shape, "tree-unfolded copies", why)
 				return fin()
+			}
+		}
+	}
+
+	/* 2b. cone-split twin: partial unfolding that scales to any depth */
+	if len(p.roots) == 1 && p.tracked[p.roots[0]] && (!unfoldedAll || sc.Seed%4 == 0) {
+		rc := p.reach(p.roots[0])
+		cons := map[int]int{}
+		for _, st := range sc.Steps {
+			if !rc[st.Out] {
+				continue
+			}
+			for _, o := range st.In {
+				if rc[o] {
+					cons[o]++
+				}
+			}
+		}
+		var multi []int
+		for id, k := range cons {
+			if k >= 2 {
+				multi = append(multi, id)
+			}
+		}
+		sort.Ints(multi)
+		// deterministic choice: up to two nodes spread over the list
+		var picks []int
+		if len(multi) > 0 {
+			picks = append(picks, multi[int(sc.Seed%uint64(len(multi)))])
+			if len(multi) > 2 {
+				picks = append(picks, multi[int((sc.Seed/7)%uint64(len(multi)))])
+			}
+		}
+		for _, n := range picks {
+			cone, _ := p.upstream(n)
+			if len(cone)*cons[n] > 4000 {
+				continue
+			}
+			ssum, sabs, shave, spool, fail := p.coneSplitTwin(0, n)
+			if fail != "" {
+				out.Fail("backprop-error", "%s", fail)
+				return fin()
+			}
+			out.Probes["cone-split-twins"]++
+			sfloor := contractionFloors(sc.Steps, spool, shave, sabs)
+			for _, id := range p.order {
+				g := gotGrad[id]
+				if (g != nil) != shave[id] {
+					out.Fail("split-mismatch", "node %d (%s): gradient presence differs between the program and the twin in which every use of node %d recomputes its whole cone", id, p.byID[id].Op, n)
+					return fin()
+				}
+				if g == nil {
+					continue
+				}
+				if ok, why := compareGradFloor(g, ssum[id], sabs[id], sfloor[id]); !ok {
+					out.Fail("split-mismatch", "node %d (%s, shape %v): gradient differs from the twin in which every use of node %d (%s) recomputes its whole cone (copies summed by the harness): %s", id, p.byID[id].Op, g.shape, n, p.byID[n].Op, why)
+					return fin()
+				}
 			}
 		}
 	}
